@@ -440,6 +440,69 @@ def _str(*a, **kw):
     return str(*a)
 
 
+# ------------------------------------------------------------------------ M10
+def _flatten(x, depth=0):
+    """elements of a (nested) CrossHair sequence view as a flat list, without tracing; None = unknown shape"""
+    from crosshair.simplestructs import SliceView, SequenceConcatenation, ShellMutableSequence
+    if isinstance(x, (list, tuple, bytes, bytearray)):
+        return list(x)
+    if depth > 2000:
+        return None
+    if isinstance(x, SequenceConcatenation):
+        a, b = _flatten(x._first, depth + 1), _flatten(x._second, depth + 1)
+        return None if a is None or b is None else a + b
+    if isinstance(x, SliceView):
+        if type(x.start) is not int or type(x.stop) is not int:
+            return None
+        base = _flatten(x.seq, depth + 1)
+        return None if base is None else base[x.start:x.stop]
+    if isinstance(x, (ShellMutableSequence, B.SymbolicBytes, B.SymbolicByteArray)):
+        return _flatten(x.inner, depth + 1)
+    return None
+
+
+def _fast_find(orig):
+    """bytes.find(concrete needle) on a bytes-like value whose elements are mostly concrete: positions that
+    mismatch on a concrete byte are skipped without consulting the solver; a position that depends on symbolic
+    bytes is ONE fork on the conjunction of its byte equalities (stock CrossHair builds a symbolic comparison
+    for every position: 20 s for a 180-byte buffer)"""
+    def find(self, sub, start=None, end=None):
+        with NoTracing():
+            ok = start is None and end is None and isinstance(sub, (bytes, bytearray)) and len(sub) > 0
+            elems = None
+            if ok:
+                import sys as _sys
+                old = _sys.getrecursionlimit()
+                _sys.setrecursionlimit(max(old, 10000))
+                try:
+                    elems = _flatten(self)
+                finally:
+                    _sys.setrecursionlimit(old)
+                if elems is None:
+                    with ResumedTracing():
+                        elems = [x for x in self]
+            if elems is not None and all(isinstance(e, (int, SymbolicInt)) for e in elems):
+                space = context_statespace()
+                n, m = len(elems), len(sub)
+                _hit("M10")
+                for i in range(n - m + 1):
+                    conds, dead = [], False
+                    for j in range(m):
+                        e = elems[i + j]
+                        if isinstance(e, SymbolicInt):
+                            conds.append(e.var == sub[j])
+                        elif int(e) != sub[j]:
+                            dead = True
+                            break
+                    if dead:
+                        continue
+                    if not conds or space.smt_fork(z3.And(*conds) if len(conds) > 1 else conds[0]):
+                        return i
+                return -1
+        return orig(self, sub, start, end)
+    return find
+
+
 # ------------------------------------------------------------------ from_bytes
 def _int_from_bytes(b, byteorder="big", *, signed=False):
     with NoTracing():
@@ -510,6 +573,8 @@ def install():
     _orig_upper, _orig_lower = AnySymbolicStr.upper, AnySymbolicStr.lower
     AnySymbolicStr.upper = lambda self: _ascii_case(self, True, _orig_upper)
     AnySymbolicStr.lower = lambda self: _ascii_case(self, False, _orig_lower)
+    for cls in (B.SymbolicBytes, B.SymbolicByteArray):
+        cls.find = _fast_find(cls.find)
     _wrap_solver()
 
     orig_enter, orig_exit = _core.Patched.__enter__, _core.Patched.__exit__
